@@ -22,7 +22,7 @@ RULE = ('tier 1: for each program (3-8 operations covering every mutating method
         '(program, kill gate) pairs + distinct (syscall, n) kills')
 DISTINCT = ('kill_points', 'syscall_kills', 'random_kills')
 REQUIRED = ('gate_kills_judged', 'programs_fully_enumerated', 'kills_inside_block', 'kills_at_file_ops',
-            'kills_at_sql_gates', 'debris_seen_unknown_files_or_dirs')
+            'kills_at_sql_gates', 'debris_seen_unknown_files_or_dirs', 'syscall_kills_judged', 'random_kills_judged')
 ASSUMPTIONS = ('SIGKILL is process death, not power loss (page cache survives); durability against power failure is not '
                'examined', 'sequential semantics of each operation are taken from a dry run of the same program '
                '(validated by C03/C11/C12)')
@@ -311,6 +311,194 @@ def enumerate_program(dc, sc, res, prog_id, spec, label, stride=1, offset=0):
     sc.drop(init)
 
 
+# --------------------------------------------------------------- tier 2: strace
+SYSCALLS = ['pwrite64', 'fdatasync', 'fsync', 'ftruncate', 'unlink', 'rmdir', 'mkdir', 'rename', 'openat', 'pwritev']
+
+
+def strace_available():
+    import shutil as _sh
+    return _sh.which('strace') is not None
+
+
+def child_cmd(args):
+    return [common.PY, '-m', 'vf.children.c07'] + args
+
+
+def child_env():
+    env = dict(os.environ, VF_REPO=common.REPO, PYTHONDONTWRITEBYTECODE='1', PYTHONHASHSEED='0')
+    env['PYTHONPATH'] = common.VERIF + os.pathsep + env.get('PYTHONPATH', '')
+    return env
+
+
+def syscall_tier(dc, sc, res, rng, prog_id, spec, label, budget):
+    """SIGKILL injected by strace at the n-th file-mutating syscall of the workload phase (inside SQLite too)."""
+    kind, maxlen, setup, program = spec
+    init = sc.new('sinit')
+    build_initial(dc, init, kind, maxlen, setup)
+    s_init = crash.contents(dc, init, kind)
+    dry = sc.new('sdry')
+    crash.copy_dir(init, dry)
+    how, status, recs = crash.run_forked(dc, dry, kind, SETTINGS, program, None, dry + '.log', maxlen)
+    sc.drop(dry)
+    if os.path.exists(dry + '.log'):
+        os.unlink(dry + '.log')
+    if how != 'exited' or not any(r.get('finished') for r in recs):
+        res.inconclusive.append('%s: dry run did not finish' % label)
+        return
+    states, commits, cur = {-1: s_init}, {}, None
+    for r in recs:
+        if 'start' in r:
+            cur = r['start']
+            commits[cur] = []
+        elif 'commit_state' in r and cur is not None:
+            commits[cur].append([tuple(x) if isinstance(x, list) else x for x in r['commit_state']])
+        elif 'done' in r:
+            states[r['done']] = [tuple(x) if isinstance(x, list) else x for x in r['state']]
+    specfile = init + '.spec.json'
+    with open(specfile, 'w') as f:
+        json.dump({'kind': kind, 'maxlen': maxlen, 'program': program, 'settings': SETTINGS}, f)
+    # counting run
+    cnt = sc.new('scount')
+    crash.copy_dir(init, cnt)
+    trace = cnt + '.strace'
+    p = subprocess.run(['strace', '-f', '-qq', '-e', 'trace=' + ','.join(SYSCALLS), '-o', trace] +
+                       child_cmd(['syscall', cnt, specfile, cnt + '.log']), env=child_env(), cwd=common.VERIF,
+                       capture_output=True, timeout=120)
+    sc.drop(cnt)
+    if p.returncode != 0 or not os.path.exists(trace):
+        res.inconclusive.append('%s: strace counting run failed: %s' % (label, p.stderr.decode()[-300:]))
+        return
+    startup, work, phase = {}, {}, 0
+    with open(trace) as f:
+        for line in f:
+            if 'VF_MARK' in line:
+                phase += 1
+                continue
+            for sname in SYSCALLS:
+                if (' ' + sname + '(') in line or line.startswith(sname + '(') or (sname + '(') in line.split(' ', 2)[-1][:len(sname) + 1]:
+                    (startup if phase == 0 else work if phase == 1 else {}).setdefault(sname, 0)
+                    if phase == 0:
+                        startup[sname] += 1
+                    elif phase == 1:
+                        work[sname] += 1
+                    break
+    for fn in (trace, cnt + '.log'):
+        if os.path.exists(fn):
+            os.unlink(fn)
+    points = [(sname, n) for sname, c in work.items() for n in range(1, c + 1)]
+    if not points:
+        res.inconclusive.append('%s: no file-mutating syscalls seen in the workload phase' % label)
+        return
+    rng.shuffle(points)
+    for sname, n in points[:budget]:
+        d = sc.new('sk')
+        crash.copy_dir(init, d)
+        when = startup.get(sname, 0) + n
+        p = subprocess.run(['strace', '-f', '-qq', '-o', '/dev/null', '-e', 'trace=' + sname, '-e',
+                            'inject=%s:signal=KILL:when=%d' % (sname, when)] +
+                           child_cmd(['syscall', d, specfile, d + '.log']), env=child_env(), cwd=common.VERIF,
+                           capture_output=True, timeout=120)
+        recs = crash.read_log(d + '.log')
+        if os.path.exists(d + '.log'):
+            os.unlink(d + '.log')
+        if any(r.get('finished') for r in recs):
+            res.count('syscall_kill_points_beyond_end_of_run')
+            sc.drop(d)
+            continue
+        started = [r['start'] for r in recs if 'start' in r]
+        done = [r['done'] for r in recs if 'done' in r]
+        j = started[-1] if started else 0
+        if j in done:
+            j += 1
+        op = program[j] if j < len(program) else ('<after-last>',)
+        acceptable = [states[j - 1], states.get(j, states[j - 1])]
+        if op[0] in crash.NON_ATOMIC[kind]:
+            acceptable.extend(commits.get(j, []))
+        wit = {'label': label, 'tier': 'syscall', 'kind': kind, 'setup': setup, 'program': program,
+               'killed_at': '%s #%d of the workload' % (sname, n), 'interrupted_op_index': j, 'interrupted_op': op}
+        judge(dc, res, d, kind, maxlen, acceptable, label, wit)
+        res.count('evaluations')
+        res.count('syscall_kills_judged')
+        res.seen('syscall_kills', (prog_id, sname, n))
+        sc.drop(d)
+    os.unlink(specfile)
+    sc.drop(init)
+
+
+# ------------------------------------------------- tier 3: SIGKILL from outside
+def random_kill_tier(dc, sc, res, rng, seed, label):
+    import signal
+    import time as _t
+    from ..children import c07 as child
+    d = sc.new('rk')
+    dc.Cache(d, disk_min_file_size=T).close()
+    prefix = d + '.tlog'
+    p = subprocess.Popen(child_cmd(['threads', d, str(seed), prefix]), env=child_env(), cwd=common.VERIF,
+                         stdout=subprocess.DEVNULL, stderr=subprocess.PIPE)
+    deadline = _t.monotonic() + 60
+    while _t.monotonic() < deadline:
+        if all(os.path.exists('%s.%d' % (prefix, t)) and os.path.getsize('%s.%d' % (prefix, t)) > 40 for t in range(2)):
+            break
+        if p.poll() is not None:
+            break
+        _t.sleep(0.01)
+    _t.sleep(rng.random() * 0.15)
+    p.send_signal(signal.SIGKILL)
+    err = p.communicate()[1]
+    if p.returncode != -9:
+        res.inconclusive.append('%s: threaded child ended with %r: %s' % (label, p.returncode, err.decode()[-300:]))
+        return
+    wit = {'label': label, 'tier': 'random-kill'}
+    try:
+        fresh = dc.Cache(d, timeout=5)
+        for t in range(2):
+            lines = open('%s.%d' % (prefix, t)).read().split()
+            toks = list(zip(lines[0::2], lines[1::2]))
+            ndone = sum(1 for a, _ in toks if a == 'd')
+            model = {}
+            acceptable = []
+            ops = list(child.thread_ops(t, ndone + 1))
+            for i, (op, k, st, big) in enumerate(ops):
+                if i == ndone:
+                    acceptable.append(dict(model))
+                if op == 'set':
+                    model[k] = crash.payload(st, big)
+                else:
+                    model.pop(k, None)
+            acceptable.append(dict(model))
+            got = {}
+            for k in ['t%d-a' % t, 't%d-b' % t, 't%d-c' % t]:
+                v = fresh.get(k, None)
+                if v is not None:
+                    got[k] = v
+                if (k in fresh) != (v is not None):
+                    res.violation('after the kill key %r is reported present but yields no value' % k, wit)
+                    return
+            res.count('evaluations')
+            res.count('random_kills_judged')
+            res.seen('random_kills', (label, t, ndone))
+            if got not in acceptable:
+                res.violation('after a SIGKILL at a random instant thread %d\'s keys are in neither the state after %d nor '
+                              'after %d completed operations' % (t, ndone, ndone + 1),
+                              dict(wit, got={k: v[:12] for k, v in got.items()},
+                                   acceptable=[{k: v[:12] for k, v in a.items()} for a in acceptable]))
+                return
+        bad = [str(w.message) for w in fresh.check() if not issubclass(w.category, (dc.UnknownFileWarning, dc.EmptyDirWarning))]
+        if bad:
+            res.violation('check() after a random SIGKILL reports more than debris: %r' % bad[:3], wit)
+            return
+        fresh.set('post-crash', 1)
+        fresh.check(fix=True)
+        if fresh.check():
+            res.violation('check() after the repair still reports %r' % [str(w.message) for w in fresh.check()][:3], wit)
+        fresh.close()
+    finally:
+        for t in range(2):
+            if os.path.exists('%s.%d' % (prefix, t)):
+                os.unlink('%s.%d' % (prefix, t))
+        sc.drop(d)
+
+
 def run_shard(tier, seed, shard, nshards, res):
     dc = common.use_repo()
     probe.install()
@@ -330,3 +518,18 @@ def run_shard(tier, seed, shard, nshards, res):
                               'c07 random program seed=%d shard=%d i=%d' % (seed, shard, i))
             if res.counters.get('violations_raw', 0) > 12:
                 return
+        # tier 2: kills inside SQLite via strace syscall injection
+        probe.reset()
+        if strace_available():
+            rng = common.rng_for(seed, 'c07s', shard)
+            spec = progs[(shard + seed) % len(progs)] if rng.random() < 0.6 else random_program(rng)
+            if spec[0] == 'cache' and len(spec[2]) > 50:
+                spec = progs[0]
+            syscall_tier(dc, sc, res, rng, 'sys-%d-%d' % (seed, shard), spec, 'c07 syscall tier seed=%d shard=%d' % (seed, shard),
+                         budget=3 if tier == 'quick' else 120)
+        else:
+            res.inconclusive.append('strace is not installed: the syscall-kill tier did not run')
+        # tier 3: SIGKILL from outside at random instants into a 2-thread child
+        for i in range(1 if tier == 'quick' else 20):
+            rng = common.rng_for(seed, 'c07r', shard, i)
+            random_kill_tier(dc, sc, res, rng, seed * 1000 + shard * 20 + i, 'c07 random kill seed=%d shard=%d i=%d' % (seed, shard, i))
